@@ -55,22 +55,32 @@ Theorem blas_applicable_implies_native_blas_dtype :
   blas_applicable true d size flags = true -> native_blas d = true.
 Proof. exact blas_applicable_native. Qed.
 
+(* T1a'  `size` -- used by the dispatch AND handed to axpy/scal/copy as the vector length n -- is the
+   number of entries of the arrays, whatever their shape (regenerated statement `size = native(x1.size)`;
+   `len(x1)` would be the length of axis 0 only, and BLAS would leave the rest of out untouched). *)
+Theorem blas_vector_length_is_number_of_entries :
+  forall total len0 : Z, size_of size_expr total len0 = total.
+Proof. exact vector_length_is_size. Qed.
+
 (* T1b  the regenerated dispatch + _blas_is_applicable + ravel-order rule: whenever the BLAS
    branch is chosen, out.data.ravel(order) is a view of out and the dtype is a BLAS dtype,
    i.e. the in-place BLAS calls really update out. *)
 Theorem blas_branch_updates_in_place :
-  forall (size : Z) (floating : bool) (blas_dtype : dtinfo) (f1 f2 fo : bool * bool),
-  regime_of size floating (blas_applicable true blas_dtype size [f1; f2; fo]) = Blas ->
-  bi_view (@blas_info blas_dtype [f1; f2; fo]) = true /\ bi_call (@blas_info blas_dtype [f1; f2; fo]) = true.
+  forall (total : Z) (floating : bool) (blas_dtype : dtinfo) (f1 f2 fo : bool * bool),
+  let size := size_of size_expr total (dt_len0 blas_dtype) in
+  regime_of size floating (blas_applicable true blas_dtype total [f1; f2; fo]) = Blas ->
+  bi_view (@blas_info blas_dtype [f1; f2; fo] size total) = true
+  /\ bi_call (@blas_info blas_dtype [f1; f2; fo] size total) = true
+  /\ bi_full (@blas_info blas_dtype [f1; f2; fo] size total) = true.
 Proof. exact blas_regime_sound. Qed.
 Print Assumptions blas_branch_updates_in_place.
 Example blas_branch_is_reachable :
-  regime_of 50000 true (blas_applicable true (mkdt 100 true) 50000 [(true, false); (true, false); (true, false)]) = Blas
-  /\ regime_of 50000 true (blas_applicable true (mkdt 100 true) 50000 [(true, false); (true, false); (false, false)]) = Fallback
-  /\ regime_of 49999 true (blas_applicable true (mkdt 100 true) 49999 [(true, true); (true, true); (true, true)]) = Fallback
-  /\ regime_of 99 true (blas_applicable true (mkdt 100 true) 99 [(true, true); (true, true); (true, true)]) = Direct
-  /\ regime_of 50000 true (blas_applicable true (mkdt 101 true) 50000 [(true, true); (true, true); (true, true)]) = Fallback   (* float16 *)
-  /\ regime_of 50000 true (blas_applicable true (mkdt 100 false) 50000 [(true, true); (true, true); (true, true)]) = Fallback. (* '>f8' *)
+  regime_of 50000 true (blas_applicable true (mkdt 100 true 50000) 50000 [(true, false); (true, false); (true, false)]) = Blas
+  /\ regime_of 50000 true (blas_applicable true (mkdt 100 true 50000) 50000 [(true, false); (true, false); (false, false)]) = Fallback
+  /\ regime_of 49999 true (blas_applicable true (mkdt 100 true 50000) 49999 [(true, true); (true, true); (true, true)]) = Fallback
+  /\ regime_of 99 true (blas_applicable true (mkdt 100 true 50000) 99 [(true, true); (true, true); (true, true)]) = Direct
+  /\ regime_of 50000 true (blas_applicable true (mkdt 101 true 50000) 50000 [(true, true); (true, true); (true, true)]) = Fallback   (* float16 *)
+  /\ regime_of 50000 true (blas_applicable true (mkdt 100 false 50000) 50000 [(true, true); (true, true); (true, true)]) = Fallback. (* '>f8' *)
 Proof. vm_compute. repeat split. Qed.
 
 (* the hypotheses are satisfiable: the reals and the complex numbers are instances *)
